@@ -80,7 +80,9 @@ def run_case(case, ctx):
         thr = float(rng.choice([0.5, 1, 2, 4, 8, 20]))
         direction = [None, "positive", "negative"][int(rng.integers(0, 3))]
         known = bool(rng.random() < 0.5)
-        offset = float(rng.choice([0.0, 0.0, 10.0, 1e6]))
+        offset = float(rng.choice([0.0, 0.0, 10.0, 1e6, 1e6, 1e8]))
+        if offset >= 1e8:
+            ctx.count("cusum_streams_level_1e8")  # timestamps, byte counters: the level is 1e7 .. 1e9 times the spread
         xs = gen.level_shift_stream(rng, n, seg=(2, 90), offset=offset, heavy=True)
         xs, typed, unit = vary_units(rng, xs, ctx)
         if known:
